@@ -63,6 +63,8 @@ func c14Values(deep bool) []namedValue {
 		{"s-empty", ""}, {"s-ascii", "hello"}, {"s-bmp", "héllo wörld ☃"}, {"s-astral", "😀𝄞"}, {"s-nul", "a\x00b"},
 		{"s-2028", "line sep "}, {"s-quotes", `"q" \ / 'x'`}, {"s-pointer", "a/b~c~0~1.$k"}, {"s-html", "<a href=\"x\">&amp;</a>"},
 		{"s-ctrl", "\t\n\r\b\f\x1f"},
+		// text that merely LOOKS like an escape of one of the layers it passes (JSON, HTML, printf, URL, BSON): it is data
+		{"s-escapes-as-text", `\u0026 \u003c\u003e \u2028 \n\t \" \\ \/ \x41 %s %d %% %41 &lt; &#38; $oid`}, {"s-backslash-end", `ends with \`},
 		{"p-int", ptr(42)}, {"p-int8", ptr(int8(-8))}, {"p-uint64", ptr(uint64(math.MaxUint64))}, {"p-f64", ptr(2.5)}, {"p-f32", ptr(float32(1.25))},
 		{"p-string", ptr("ps")}, {"p-bool", ptr(true)},
 		{"struct-tagged", tagged{A: 1, B: "b"}}, {"struct-untagged", untagged{X: 1.5, Y: []string{"y"}}}, {"p-struct", &tagged{A: 2, B: "pb"}},
@@ -98,7 +100,7 @@ func c14Values(deep bool) []namedValue {
 // c14Keys: keys of map / object members the key-taking operations are repeated with ("@k<i>" suffix of
 // the operation kind): JSON-pointer syntax, quotes and backslashes, control characters and DEL, line
 // separators, astral and the last code point, HTML-sensitive characters, BSON-sensitive characters.
-var c14Keys = []string{"a/b~c~0~1~01", `"q"\ 'x'`, "c\x00\x07\x0b\x1b\x7f", "\u2028\u2029", "\U0001F600\U0010FFFF", "<&>", "$d.o", "\t\n\r\b\f"}
+var c14Keys = []string{"a/b~c~0~1~01", `"q"\ 'x'`, "c\x00\x07\x0b\x1b\x7f", "\u2028\u2029", "\U0001F600\U0010FFFF", "<&>", "$d.o", "\t\n\r\b\f", `\u0026\n%s\`}
 
 // keyed kinds: base operation kinds that take a key
 var c14KeyedValue = []string{"map.put", "doc.put"}
